@@ -20,7 +20,8 @@ def main():
         from . import histsim, runner
         W = runner.worker()
         log, viols = W.run_ops(rep["ops"], rep["cfg"]["passive"], second=True, cold_seed=rep["cfg"].get("cold_seed"),
-                                warn_mode=rep["cfg"].get("warn_mode", "ignore"))
+                                warn_mode=rep["cfg"].get("warn_mode", "ignore"),
+                                cold=rep.get("replay_mode", "cold") == "cold")
         hit = [v for v in viols if v.oracle == rep["violation_class"]
                and histsim.attributable(rep["property"], v, rep["ops"], log)]
         ok = bool(hit)
